@@ -108,7 +108,7 @@ class P(Property):
                                 ending = rng.choice(endings)
                                 mode = rng.choice(modes)
                                 en = 1 if rng.random() < 0.8 else 0
-                                early = 1 if (kind == 'uni' and rng.random() < 0.3) else 0
+                                early = rng.choice([1, 2]) if (kind == 'uni' and rng.random() < 0.35) else 0
                                 npre = rng.choice([0, 0, 1, 2]) if s >= 8 else (1 if s == 4 and rng.random() < 0.5 else 0)
                                 out.append('wt.recv %s %d %d %d %d %s %s' % (kind, s, npre, en, early, mode, hist(chunks, ending, polls)))
         # truncated headers (stream ends or stays silent inside the header)
